@@ -155,8 +155,8 @@ struct Pending {
 
 fn req_id(c: usize, n: usize, j: Option<usize>) -> String {
     match j {
-        None => format!("c{c}n{n:02}"),
-        Some(j) => format!("c{c}n{n:02}x{j}"),
+        None => format!("c{c}n{n:03}"),
+        Some(j) => format!("c{c}n{n:03}x{j}"),
     }
 }
 
@@ -335,6 +335,20 @@ impl Driver {
             "change" => {
                 let subs: Vec<String> = st["subs"].as_array().map(|a| a.iter().map(|x| x.as_str().unwrap_or("").to_string()).collect()).unwrap_or_default();
                 self.m.lock().unwrap().change(&subs);
+            }
+            "wstall" => {
+                let mut s = self.m.lock().unwrap();
+                s.wstall = Some(st["n"].as_u64().unwrap_or(0) as usize);
+                s.log.push(json!({"e": "wstall", "n": st["n"].as_u64().unwrap_or(0)}));
+            }
+            "wresume" => {
+                let mut s = self.m.lock().unwrap();
+                s.wstall = None;
+                s.progress += 1;
+                s.log.push(json!({"e": "wresume"}));
+                if let Some(w) = s.wwaker.take() {
+                    w.wake();
+                }
             }
             "maxread" => {
                 self.m.lock().unwrap().max_read = st["n"].as_u64().unwrap_or(0) as usize;
@@ -533,6 +547,7 @@ pub fn run_one(run: &Value) -> Vec<Value> {
             d.batch(b.as_array().unwrap_or(&empty)).await;
         }
         // drain to a fixpoint: deliver everything, let timers expire, until nothing moves
+        d.apply(&json!({"op": "wresume"}));
         log(&mm, json!({"e": "drain"}));
         let mut stable = 0;
         let mut rounds = 0;
